@@ -15,8 +15,12 @@
 (* access to.  A caller may reuse his buffers: e.pre = "same" marks a call that     *)
 (* follows an identical call on the SAME buffers, e.pre = "wrongctx" one that       *)
 (* follows a failing attempt with context e.pre_info on the same ciphertext buffer. *)
+(* e.pre = "prev" marks a call of a session: the preceding call on the same         *)
+(* primitive instance took its arguments (e.pre_arg, e.pre_info) from the same      *)
+(* buffers, which the caller then overwrote in place (class "seq").                 *)
 (* Such a call is judged like any other: with the right key and context the        *)
-(* plaintext must come back (round-trip clause), whatever happened before.          *)
+(* plaintext must come back (round-trip clause), and with another context it must   *)
+(* be rejected (context binding), whatever happened before.                         *)
 (*                                                                               *)
 (* ML-KEM decapsulation is an assumed primitive: the event carries the answer      *)
 (* (ml_ok, ml_ss) of Go's crypto/mlkem for the query (ml_param, ml_seed, ml_ct);   *)
